@@ -20,6 +20,7 @@ package main
 
 import (
 	"volcano.sh/volcano/pkg/scheduler/actions/enqueue"
+	"volcano.sh/volcano/pkg/scheduler/api"
 	"volcano.sh/volcano/pkg/scheduler/conf"
 	"volcano.sh/volcano/pkg/scheduler/framework"
 
@@ -29,7 +30,7 @@ import (
 
 type eqQueue struct{ ID, Parent, Open, Mask, CPU, Mem, GPU int64 }
 type eqJob struct {
-	ID, Queue, Phase, HasMin, Mask, CPU, Mem, GPU, MinMember, NT, TCPU, TMem, TGPU, Running int64
+	ID, Queue, Phase, HasMin, Mask, CPU, Mem, GPU, MinMember, NT, TCPU, TMem, TGPU, Running, Gated int64
 }
 
 
@@ -40,7 +41,7 @@ func decEnqueue(in []int64) (kind int64, qs []eqQueue, js []eqJob) {
 		qs = append(qs, eqQueue{t.Next(), t.Next(), t.Next(), t.Next(), t.Next(), t.Next(), t.Next()})
 	})
 	t.List(func() {
-		js = append(js, eqJob{t.Next(), t.Next(), t.Next(), t.Next(), t.Next(), t.Next(), t.Next(), t.Next(), t.Next(), t.Next(), t.Next(), t.Next(), t.Next(), t.Next()})
+		js = append(js, eqJob{t.Next(), t.Next(), t.Next(), t.Next(), t.Next(), t.Next(), t.Next(), t.Next(), t.Next(), t.Next(), t.Next(), t.Next(), t.Next(), t.Next(), t.Next()})
 	})
 	if t.I != len(in) {
 		panic("enqueue case: trailing tokens")
@@ -80,13 +81,28 @@ func runEnqueueCase(in []int64) []int64 {
 			if i < j.Running {
 				st = sched.SRunning
 			}
-			s.Tasks = append(s.Tasks, VTask{ID: tid, Job: j.ID, CPU: j.TCPU, Mem: j.TMem * mib, GPU: j.TGPU, Status: st})
+			// the LAST `gated` pending pods of the job carry a scheduling gate
+			gated := st == sched.SPending && i >= j.NT-j.Gated
+			s.Tasks = append(s.Tasks, VTask{ID: tid, Job: j.ID, CPU: j.TCPU, Mem: j.TMem * mib, GPU: j.TGPU, Status: st, Gated: gated})
 		}
 	}
 	w := openVotes(s)
 	defer framework.CloseSession(w.ssn)
 	votes := map[int64]int64{}
+	avotes := map[int64]int64{}
 	for _, j := range js {
+		// the placement vote for the job's first pending pod that is not gated
+		avotes[j.ID] = 2
+		ji := w.ssn.Jobs[sched.JobID(j.ID)]
+		var cand *api.TaskInfo
+		for _, t := range ji.Tasks {
+			if t.Status == api.Pending && !t.SchGated && (cand == nil || t.UID < cand.UID) {
+				cand = t
+			}
+		}
+		if cand != nil && votable(kind, w, ji.Queue) {
+			avotes[j.ID] = vh.B(w.ssn.Allocatable(w.ssn.Queues[ji.Queue], cand))
+		}
 		votes[j.ID] = 2
 		if j.Phase == 1 && j.HasMin != 0 {
 			votes[j.ID] = vh.B(w.ssn.JobEnqueueable(w.ssn.Jobs[sched.JobID(j.ID)]))
@@ -109,9 +125,18 @@ func runEnqueueCase(in []int64) []int64 {
 		if k := min(j.Running, j.NT); k > 0 {
 			an, a0, a1, a2 = k, k*j.TCPU, k*j.TMem, k*j.TGPU
 		}
-		out = append(out, j.ID, j.Queue, j.Phase, after, j.HasMin, j.Mask, j.CPU, j.Mem, j.GPU, j.MinMember, an, a0, a1, a2, votes[j.ID])
+		g := max(min(j.Gated, j.NT-min(j.Running, j.NT)), 0)
+		out = append(out, j.ID, j.Queue, j.Phase, after, j.HasMin, j.Mask, j.CPU, j.Mem, j.GPU, j.MinMember, an, a0, a1, a2, votes[j.ID],
+			g*j.TCPU, g*j.TMem, g*j.TGPU, avotes[j.ID])
 	}
 	return out
+}
+
+// votable: the plugin holds a record for the queue (the flat plugins only for queues with jobs)
+func votable(kind int64, w *voteWorld, q api.QueueID) bool {
+	_ = kind
+	_ = w
+	return q != ""
 }
 
 func encEnqueue(kind int64, qs []eqQueue, js []eqJob) []int64 {
@@ -121,7 +146,7 @@ func encEnqueue(kind int64, qs []eqQueue, js []eqJob) []int64 {
 	}
 	out = append(out, int64(len(js)))
 	for _, j := range js {
-		out = append(out, j.ID, j.Queue, j.Phase, j.HasMin, j.Mask, j.CPU, j.Mem, j.GPU, j.MinMember, j.NT, j.TCPU, j.TMem, j.TGPU, j.Running)
+		out = append(out, j.ID, j.Queue, j.Phase, j.HasMin, j.Mask, j.CPU, j.Mem, j.GPU, j.MinMember, j.NT, j.TCPU, j.TMem, j.TGPU, j.Running, j.Gated)
 	}
 	return out
 }
@@ -129,7 +154,7 @@ func encEnqueue(kind int64, qs []eqQueue, js []eqJob) []int64 {
 func genEnqueueCase(r *vh.Rng) []int64 {
 	kind := int64(r.Range(1, 3))
 	var qs []eqQueue
-	var leaves []int64
+	var leaves, inner []int64
 	capOf := func(q *eqQueue, p int) {
 		if r.Chance(p, 4) {
 			q.Mask |= 1
@@ -152,8 +177,17 @@ func genEnqueueCase(r *vh.Rng) []int64 {
 			capOf(&mid, 3)
 			next++
 			qs = append(qs, mid)
+			// sometimes all / some children of an inner queue are Closed and a job is submitted to the
+			// inner queue itself: a queue with ANY child is not a leaf, whatever the children's state
+			closedKids := r.Intn(6) // 0: all closed, 1: the first one closed
+			if closedKids == 0 || closedKids == 1 {
+				inner = append(inner, mid.ID)
+			}
 			for l := 0; l < r.Range(1, 2); l++ {
 				leaf := eqQueue{ID: next, Parent: mid.ID, Open: vh.B(!r.Chance(1, 8))}
+				if closedKids == 0 || (closedKids == 1 && l == 0) {
+					leaf.Open = 0
+				}
 				capOf(&leaf, 1)
 				next++
 				qs = append(qs, leaf)
@@ -171,6 +205,9 @@ func genEnqueueCase(r *vh.Rng) []int64 {
 	var js []eqJob
 	for i := 1; i <= r.Range(2, 7); i++ {
 		j := eqJob{ID: int64(i), Queue: vh.Pick(r, leaves), Phase: vh.Pick(r, []int64{1, 1, 1, 2, 2, 3}), MinMember: int64(r.Range(1, 3))}
+		if len(inner) > 0 && r.Chance(1, 3) {
+			j.Queue, j.Phase = vh.Pick(r, inner), 1 // a Pending PodGroup submitted to a queue that has children
+		}
 		if r.Chance(3, 4) {
 			j.HasMin = 1
 			j.Mask = vh.Pick(r, []int64{1, 1, 3, 5, 7, 2})
@@ -189,6 +226,9 @@ func genEnqueueCase(r *vh.Rng) []int64 {
 			if j.Phase != 1 && r.Chance(3, 4) {
 				j.Running = int64(r.Range(0, int(j.NT))) // 0 .. all of them: also fewer than minMember
 			}
+			if r.Chance(1, 3) {
+				j.Gated = int64(r.Range(1, int(j.NT))) // some or all of the pending pods are scheduling-gated
+			}
 		}
 		js = append(js, j)
 	}
@@ -197,6 +237,21 @@ func genEnqueueCase(r *vh.Rng) []int64 {
 
 // the shape of seeded mutant C03-2: capability 4 cpu, a PodGroup already Inqueue with
 // minResources 3 cpu and no pods, a Pending PodGroup asking for 2 cpu
+// the shape of seeded C03-r8-1: capability 4 cpu, 3 cpu admitted, a Pending PodGroup with
+// minResources 2 cpu whose two 1-cpu pods are both scheduling-gated (deducted request = 0)
+func enqueueGatedWitness(kind int64) []int64 {
+	pend := eqJob{ID: 2, Queue: 1, Phase: 1, HasMin: 1, Mask: 1, CPU: 2000, MinMember: 1, NT: 2, TCPU: 1000, TMem: 1, Gated: 2}
+	return encEnqueue(kind, []eqQueue{{ID: 1, Open: 1, Mask: 1, CPU: 4000}},
+		[]eqJob{{ID: 1, Queue: 1, Phase: 2, HasMin: 1, Mask: 1, CPU: 3000, MinMember: 1}, pend})
+}
+
+// the shape of seeded C03-r8-2: an inner queue whose children are all Closed, a PodGroup (and its
+// pending pod) submitted to the inner queue
+func enqueueClosedChildrenWitness() []int64 {
+	return encEnqueue(kHier, []eqQueue{{ID: 1, Open: 1}, {ID: 2, Parent: 1, Open: 1, Mask: 1, CPU: 8000}, {ID: 3, Parent: 2, Open: 0}, {ID: 4, Parent: 2, Open: 0}},
+		[]eqJob{{ID: 1, Queue: 2, Phase: 1, HasMin: 1, Mask: 1, CPU: 1000, MinMember: 1, NT: 1, TCPU: 1000, TMem: 1}})
+}
+
 func enqueueWitness(kind int64) []int64 {
 	if kind == kHier {
 		return encEnqueue(kind, []eqQueue{{ID: 1, Open: 1}, {ID: 2, Parent: 1, Open: 1, Mask: 1, CPU: 4000}, {ID: 3, Parent: 2, Open: 1}},
